@@ -425,11 +425,20 @@ def run_dir(ctx, case, rng):
     for i, bank in enumerate(banks):
         text = encode(sfmt, bank, rng, 'utf-8')
         name = 'part%d.%s' % (i, sfmt) + ('.gz' if gz else '')
+        where = os.path.join(d, name)
+        if rng.random() < 0.3:
+            # the directory holds a symbolic link to the file (a corpus kept
+            # elsewhere): it is a file of the directory like any other
+            store = ctx.path('.store')
+            os.mkdir(store)
+            where = os.path.join(store, 'kept_' + name)
+            os.symlink(where, os.path.join(d, name))
+            ctx.stratum('directory mode: symbolic link to a file')
         if gz:
-            with gzip.open(os.path.join(d, name), 'wb') as f:
+            with gzip.open(where, 'wb') as f:
                 f.write(text.encode('utf-8'))
         else:
-            with io.open(os.path.join(d, name), 'w', encoding='utf-8') as f:
+            with io.open(where, 'w', encoding='utf-8') as f:
                 f.write(text)
         names.append(name)
     sopts = tuple(case.get('sopts') or ('quiet',))
